@@ -375,6 +375,17 @@ fn check_sub(c: &Case, mem: Option<&Guarded>) -> Result<(), String> {
         if (i1 != i2) != pp::Pair::with_indices(n, i1, i2).is_some() {
             return Err(format!("Pair::with_indices({},{}) acceptance wrong", i1, i2));
         }
+        for (a, b) in [(0u8, 255u8), (255, 1), (254, 255), (255, 255), (200, 254)] {
+            let ok = a != b && (a as usize) < n.len() && (b as usize) < n.len();
+            if pp::Pair::with_indices(n, a, b).is_some() != ok {
+                return Err(format!("Pair::with_indices({},{}) acceptance wrong for needle length {}", a, b, n.len()));
+            }
+        }
+        for p in pairs.iter().flatten().take(1).chain(pairs.iter().flatten().skip(2)) {
+            if p.index1() > 254 || p.index2() > 254 {
+                return Err(format!("selected pair offset above 254: {:?}", p));
+            }
+        }
     } else if pp::Pair::new(n).is_some() {
         return Err("Pair::new accepted a needle shorter than 2".to_string());
     }
@@ -432,7 +443,13 @@ fn gen_case(family: &str, rng: &mut Rng, k: u64) -> Case {
                 7 => 33 + rng.below(40),
                 _ => 2 + rng.below(30),
             };
+            let nlen = if k % 29 == 7 { 250 + rng.below(60) } else { nlen };
             let mut n: Vec<u8> = (0..nlen).map(|_| alpha[rng.below(alpha.len())]).collect();
+            if k % 29 == 7 {
+                // long needle whose rarest byte sits around offsets 253..258 (pair offsets are u8, capped at 254)
+                let p = (253 + rng.below(6)).min(nlen - 1);
+                n[p] = b'Z';
+            }
             if k % 4 == 0 && nlen > 2 {
                 // make it periodic
                 let p = 1 + rng.below(nlen / 2);
